@@ -158,8 +158,9 @@ func Load(dir string, overlay map[string][]byte, patterns ...string) (*Prog, err
 		}
 		return a.Pos() < b.Pos()
 	})
+	p.loadClosureAliases()
 	for _, fn := range p.Funcs {
-		p.byName[fn.String()] = fn
+		p.byName[FnString(fn)] = fn
 	}
 	p.SSASecs = time.Since(t1).Seconds()
 	p.loadNameAliases()
@@ -222,7 +223,7 @@ func FuncName(fn *ssa.Function) string {
 	if fn == nil {
 		return "<nil>"
 	}
-	return Short(fn.String())
+	return Short(FnString(fn))
 }
 
 // Pkg returns the type-checked package for an alias or import path.
